@@ -5,6 +5,7 @@ Usage
     from vp import dbparse
     db = dbparse.load("phreeqc.dat")              # name relative to <repo>/database, or an absolute path; cached
     db = dbparse.parse_text(text, name="x")       # parse a string
+    db2 = dbparse.parse_text(more, name="x+", base=db)   # `more` continues db (input additions / re-definitions); db is not modified
 
     db.master["Fe(3)"]      -> Master(element="Fe(3)", base="Fe", species="Fe+3", alk=-2.0, gfw=55.847, primary=False,
                                       gfw_formula="Fe", element_gfw=None, valence=3.0)
@@ -515,8 +516,31 @@ def _mb_elements(text):
     return out
 
 
-def parse_text(text, name="<string>"):
+def _copy_into(db, base):
+    """start `db` as a copy of `base` (objects are shallow-copied: definitions parsed later replace whole objects, never mutate)"""
+    import copy
+    for attr in ("master", "exchange_master", "surface_master", "species", "exchange_species", "surface_species", "phases"):
+        tab = getattr(db, attr)
+        for k, v in getattr(base, attr).items():
+            tab[k] = copy.copy(v)
+    db.phase_ci = dict(base.phase_ci)
+    db.named = {k: copy.copy(v) for k, v in base.named.items()}
+    db.llnl = copy.deepcopy(base.llnl)
+    db.blocks = collections.Counter(base.blocks)
+    db.rates = list(base.rates)
+    db.problems = list(base.problems)
+    db.has_pitzer, db.has_sit = base.has_pitzer, base.has_sit
+    db.isotopes = {k: list(v) for k, v in base.isotopes.items()}
+    db.redefined = []
+
+
+def parse_text(text, name="<string>", base=None):
+    """parse database-format text; with base=<Database> the text is read as a continuation of that database (definitions given
+    in a run input after LoadDatabase, or a correction block at the end of a database file): later definitions of a species /
+    phase / master element / named expression replace the earlier ones completely.  `base` is not modified."""
     db = Database(name)
+    if base is not None:
+        _copy_into(db, base)
     lines = logical_lines(text)
     block = None
     cur = None            # current species / phase / named expression
